@@ -761,6 +761,474 @@ theorem hopbyhop_roundtrip (v : V) (h : HopByHop.WFv v) : RoundTripPrefix kHopBy
 example : HopByHop.WFv (.obj "p.HopByHopHeader" [.num 58, .num 1, .list [.obj "p.Option" [.num 5, .num 2, .bytes [0, 7]],
     .obj "p.Option" [.num 1, .num 8, .bytes [0, 0, 0, 0, 0, 0, 0, 0]]]]) := by decide
 
+/-! ### IGMPv3 query (S/QRV lane, list of source addresses) -/
+/-- a 4-byte address value -/
+def isIP4 : V → Prop
+  | .bytes b => b.length = 4
+  | _ => False
+instance : DecidablePred isIP4 := fun v => by unfold isIP4; split <;> infer_instance
+
+theorem ip4_list (srcs : List V) (h : ∀ x ∈ srcs, isIP4 x) :
+    ∃ ips : List Bytes, srcs = ips.map V.bytes ∧ (∀ b ∈ ips, b.length = 4) ∧ pIpList srcs = .ok ips := by
+  induction srcs with
+  | nil => exact ⟨[], rfl, by simp, rfl⟩
+  | cons x xs ih =>
+    obtain ⟨ips, h1, h2, h3⟩ := ih (fun y hy => h y (by simp [hy]))
+    have hx := h x (by simp)
+    unfold isIP4 at hx
+    split at hx
+    · rename_i b
+      refine ⟨b :: ips, by simp [h1], ?_, ?_⟩
+      · intro c hc
+        simp at hc
+        rcases hc with rfl | hc
+        · exact hx
+        · exact h2 c hc
+      · simp [pIpList, pBytesOf, h3]
+    · exact hx.elim
+
+theorem ip4_flatten_length (ips : List Bytes) (h : ∀ b ∈ ips, b.length = 4) : ips.flatten.length = 4 * ips.length := by
+  induction ips with
+  | nil => rfl
+  | cons b bs ih =>
+    have := h b (by simp)
+    have := ih (fun c hc => h c (by simp [hc]))
+    simp at *
+    omega
+
+/-- the encoder's pieces for a list of 4-byte addresses are their concatenation -/
+theorem ip4_pieces (ips : List Bytes) (h : ∀ b ∈ ips, b.length = 4) :
+    piecesBytes (ips.map (fun ip => pCopyIn 4 (pIpTo4 ip))) = ips.flatten ∧
+    piecesLen (ips.map (fun ip => pCopyIn 4 (pIpTo4 ip))) = 4 * ips.length ∧
+    ∀ p ∈ ips.map (fun ip => pCopyIn 4 (pIpTo4 ip)), p.Tight := by
+  induction ips with
+  | nil => exact ⟨rfl, rfl, by simp⟩
+  | cons b bs ih =>
+    have hb := h b (by simp)
+    obtain ⟨i1, i2, i3⟩ := ih (fun c hc => h c (by simp [hc]))
+    refine ⟨?_, ?_, ?_⟩
+    · simp [piecesBytes, Piece.bytes, pCopyIn, pIpTo4_four _ hb, pFitTo_self _ _ hb] at i1 ⊢
+      exact i1
+    · simp [piecesLen, Piece.adv, pCopyIn, pIpTo4_four _ hb, pFitTo_self _ _ hb] at i2 ⊢
+      omega
+    · intro p hp
+      simp at hp
+      rcases hp with rfl | hp
+      · simp [Piece.Tight, pCopyIn]
+      · exact i3 p (by simp; exact hp)
+
+/-- the decoder's address loop reads back the concatenated addresses -/
+theorem readIPs_flatten (ips : List Bytes) (h : ∀ b ∈ ips, b.length = 4) :
+    ∀ (pre tail : Bytes) (len : Nat),
+      pReadIPs ⟨pre ++ ips.flatten ++ tail, len⟩ pre.length ips.length = .ok (ips.map V.bytes) := by
+  induction ips with
+  | nil => intro pre tail len; rfl
+  | cons b bs ih =>
+    intro pre tail len
+    have hb := h b (by simp)
+    have := ih (fun c hc => h c (by simp [hc])) (pre ++ b) tail len
+    simp only [List.length_cons, pReadIPs, List.flatten_cons]
+    rw [Slice.sliceR_ok _ _ _ (by omega) (by simp; omega)]
+    simp only [Res.bind_ok, List.length_append, hb, List.append_assoc] at this ⊢
+    rw [this]
+    simp [Slice.bytes, take_prefix 4 b _ hb]
+
+def kIGMPv3Query : KindOps := ⟨PIGMPv3Query.lenM, PIGMPv3Query.marshalM, PIGMPv3Query.unmarshal, PIGMPv3Query.zero⟩
+
+/-- well-formed IGMPv3 query: 8/16-bit fields in range, Reserved 0 (it is not on the wire), S flag 0/1, QRV 3 bits,
+    4-byte group and source addresses, `NumberOfSources` = number of sources present, size fits 16 bits -/
+def IGMPv3Query.WFv : V → Prop
+  | .obj "p.IGMPv3Query" [.num ty, .num mrt, .num cs, .bytes g, .num rsv, .num s, .num rv, .num it, .num ns, .list srcs] =>
+    ty < 256 ∧ mrt < 256 ∧ cs < 65536 ∧ g.length = 4 ∧ rsv = 0 ∧ s < 2 ∧ rv < 8 ∧ it < 256 ∧ ns = srcs.length ∧
+      12 + 4 * ns < 65536 ∧ ∀ x ∈ srcs, isIP4 x
+  | _ => False
+instance : DecidablePred IGMPv3Query.WFv := fun v => by unfold IGMPv3Query.WFv; split <;> infer_instance
+
+theorem igmpv3q_len (ns : Nat) (h : 12 + 4 * ns < 65536) : ((12 : UInt16) + n16 ns * (4 : UInt16)).toNat = 12 + 4 * ns := by
+  simp only [UInt16.toNat_add, UInt16.toNat_mul, n16_toNat ns (by omega)]
+  have h1 : (12 : UInt16).toNat = 12 := rfl
+  have h4 : (4 : UInt16).toNat = 4 := rfl
+  rw [h1, h4]; omega
+
+theorem igmpv3query_roundtrip (v : V) (h : IGMPv3Query.WFv v) : RoundTrip kIGMPv3Query v := by
+  unfold IGMPv3Query.WFv at h
+  split at h
+  · rename_i ty mrt cs g rsv s rv it ns srcs
+    obtain ⟨h1, h2, h3, h4, rfl, h6, h7, h8, rfl, h10, h11⟩ := h
+    obtain ⟨ips, rfl, hips, hpl⟩ := ip4_list srcs h11
+    simp only [List.length_map] at h10 ⊢
+    obtain ⟨g0, g1, g2, g3, rfl⟩ := bytes_len4 g h4
+    obtain ⟨p1, p2, p3⟩ := ip4_pieces ips hips
+    have hfl := ip4_flatten_length ips hips
+    have hlen := igmpv3q_len ips.length h10
+    obtain ⟨l1, l2⟩ := lane_igmpv3_s_qrv (s != 0) (n8 rv) (by rw [n8_toNat _ (by omega)]; exact h7)
+    have hs : V.bool (s != 0) = .num s := by
+      have : s = 0 ∨ s = 1 := by omega
+      rcases this with rfl | rfl <;> rfl
+    have hrv : rv < 256 := by omega
+    have hns : ips.length < 65536 := by omega
+    refine ⟨[n8 ty, n8 mrt] ++ be16 (n16 cs) ++ [g0, g1, g2, g3] ++ [PIGMPv3Query.packSQRV (s != 0) (n8 rv), n8 it]
+      ++ be16 (n16 ips.length) ++ ips.flatten, (12 : UInt16) + n16 ips.length * (4 : UInt16), ?_⟩
+    refine ⟨?_, ?_, ?_, ?_⟩
+    · simp only [kIGMPv3Query, PIGMPv3Query.marshalM, PIGMPv3Query.len, Res.bind_ok, Gen.protocol.IGMPv3Query.Len, hlen, hpl]
+      rw [pIpTo4_four _ h4, pCopyIn, pFitTo_self _ _ h4]
+      rw [fill_ok _ _ (by
+          intro p hp
+          simp only [List.cons_append, List.nil_append, List.mem_cons] at hp
+          rcases hp with rfl | rfl | rfl | rfl | rfl | rfl | rfl | hp
+          all_goals first | (simp [Piece.Tight, pU8, pU16]; done) | exact p3 p hp)
+        (by simp [piecesLen, Piece.adv, pU8, pU16] at p2 ⊢; omega)]
+      simp [piecesBytes, Piece.bytes, pU8, pU16, same] at p1 ⊢
+      exact p1
+    · simp [kIGMPv3Query, PIGMPv3Query.lenM, PIGMPv3Query.len, same, Gen.protocol.IGMPv3Query.Len]
+    · rw [hlen]; simp only [List.length_append, List.length_cons, List.length_nil, be16_length, hfl]
+    · intro spare
+      simp only [kIGMPv3Query]
+      unfold PIGMPv3Query.unmarshal
+      have hbl : ([n8 ty, n8 mrt] ++ be16 (n16 cs) ++ [g0, g1, g2, g3] ++ [PIGMPv3Query.packSQRV (s != 0) (n8 rv), n8 it]
+        ++ be16 (n16 ips.length) ++ ips.flatten).length = 12 + 4 * ips.length := by
+        simp only [List.length_append, List.length_cons, List.length_nil, be16_length, hfl]
+      rw [hbl]
+      have hrd := readIPs_flatten ips hips ([n8 ty, n8 mrt] ++ be16 (n16 cs) ++ [g0, g1, g2, g3] ++
+        [PIGMPv3Query.packSQRV (s != 0) (n8 rv), n8 it] ++ be16 (n16 ips.length)) spare (12 + 4 * ips.length)
+      rw [show ([n8 ty, n8 mrt] ++ be16 (n16 cs) ++ [g0, g1, g2, g3] ++
+        [PIGMPv3Query.packSQRV (s != 0) (n8 rv), n8 it] ++ be16 (n16 ips.length)).length = 12 from rfl] at hrd
+      generalize hdata : (⟨[n8 ty, n8 mrt] ++ be16 (n16 cs) ++ [g0, g1, g2, g3] ++
+        [PIGMPv3Query.packSQRV (s != 0) (n8 rv), n8 it] ++ be16 (n16 ips.length) ++ ips.flatten ++ spare, 12 + 4 * ips.length⟩ : Slice) = data at hrd ⊢
+      have a0 : 0 < 12 + 4 * ips.length := by omega
+      have a1 : 1 < 12 + 4 * ips.length := by omega
+      have a8 : 8 < 12 + 4 * ips.length := by omega
+      have a9 : 9 < 12 + 4 * ips.length := by omega
+      have a2 : 2 ≤ 12 + 4 * ips.length := by omega
+      have a10 : 10 ≤ 12 + 4 * ips.length := by omega
+      have b2 : 2 ≤ 12 + 4 * ips.length - 2 := by omega
+      have b10 : 2 ≤ 12 + 4 * ips.length - 10 := by omega
+      have r0 : data.byteAt 0 = .ok (n8 ty) := by rw [← hdata]; rt_reads [a0]
+      have r1 : data.byteAt 1 = .ok (n8 mrt) := by rw [← hdata]; rt_reads [a1]
+      have r2 : data.u16From 2 = .ok (n16 cs) := by rw [← hdata]; rt_reads [a2, b2]
+      have r4 : data.sliceR 4 8 = .ok ⟨[g0, g1, g2, g3] ++ ([PIGMPv3Query.packSQRV (s != 0) (n8 rv), n8 it] ++ be16 (n16 ips.length) ++ ips.flatten ++ spare), 4⟩ := by
+        rw [← hdata]; rt_reads []
+      have r8 : data.byteAt 8 = .ok (PIGMPv3Query.packSQRV (s != 0) (n8 rv)) := by rw [← hdata]; rt_reads [a8]
+      have r9 : data.byteAt 9 = .ok (n8 it) := by rw [← hdata]; rt_reads [a9]
+      have r10 : data.u16From 10 = .ok (n16 ips.length) := by rw [← hdata]; rt_reads [a10, b10]
+      have rl : data.len = 12 + 4 * ips.length := by rw [← hdata]
+      simp only [r0, r1, r2, r4, r8, r9, r10, rl, Res.bind_ok, n16_toNat _ hns, hrd]
+      have c1 : ¬ (12 + 4 * ips.length < 12) := by omega
+      have c2 : ¬ (12 + 4 * ips.length < 12 + ips.length * 4) := by omega
+      simp [c1, c2, PIGMPv3Query.zero, l1, l2, hs, u8_n8, u16_n16, h1, h2, h3, hrv, h8, hns, Slice.bytes, makeCopy_self]
+  · exact h.elim
+
+example : IGMPv3Query.WFv (.obj "p.IGMPv3Query" [.num 0x11, .num 100, .num 0xabcd, .bytes [224, 0, 0, 1], .num 0, .num 1,
+    .num 5, .num 125, .num 2, .list [.bytes [10, 0, 0, 1], .bytes [10, 0, 0, 2]]]) := by decide
+
+/-! ### IGMPv3 group record and membership report (nested lists) -/
+/-- a 32-bit number value -/
+def isU32 : V → Prop
+  | .num w => w < 4294967296
+  | _ => False
+instance : DecidablePred isU32 := fun v => by unfold isU32; split <;> infer_instance
+
+theorem u32_list (xs : List V) (h : ∀ x ∈ xs, isU32 x) :
+    ∃ ws : List UInt32, xs = ws.map V.u32 ∧ xs.map (fun d => pU32 d.asNat) = ws.map (fun w => Piece.put (be32 w)) := by
+  induction xs with
+  | nil => exact ⟨[], rfl, rfl⟩
+  | cons x xs ih =>
+    obtain ⟨ws, h1, h2⟩ := ih (fun y hy => h y (by simp [hy]))
+    have hx := h x (by simp)
+    unfold isU32 at hx
+    split at hx
+    · rename_i w
+      refine ⟨n32 w :: ws, ?_, ?_⟩
+      · simp [h1, u32_n32 w hx]
+      · simp only [List.map_cons, h2]; rfl
+    · exact hx.elim
+
+theorem u32_pieces (ws : List UInt32) :
+    piecesBytes (ws.map (fun w => Piece.put (be32 w))) = (ws.map be32).flatten ∧
+    piecesLen (ws.map (fun w => Piece.put (be32 w))) = 4 * ws.length ∧
+    (∀ p ∈ ws.map (fun w => Piece.put (be32 w)), p.Tight) ∧ (ws.map be32).flatten.length = 4 * ws.length := by
+  induction ws with
+  | nil => exact ⟨rfl, rfl, by simp, rfl⟩
+  | cons w ws ih =>
+    obtain ⟨i1, i2, i3, i4⟩ := ih
+    refine ⟨?_, ?_, ?_, ?_⟩
+    · simp [piecesBytes, Piece.bytes] at i1 ⊢
+      exact i1
+    · simp [piecesLen, Piece.adv] at i2 ⊢
+      omega
+    · intro p hp
+      simp at hp
+      rcases hp with rfl | ⟨a, _, rfl⟩ <;> simp [Piece.Tight]
+    · simp only [List.map_cons, List.flatten_cons, List.length_append, be32_length, i4, List.length_cons]; omega
+
+/-- the decoder's word loop reads back the concatenated big-endian words (they must lie inside `len`) -/
+theorem readU32s_flatten (ws : List UInt32) :
+    ∀ (pre tail : Bytes) (len : Nat), pre.length + 4 * ws.length ≤ len →
+      len ≤ (pre ++ (ws.map be32).flatten ++ tail).length →
+      pReadU32s ⟨pre ++ (ws.map be32).flatten ++ tail, len⟩ pre.length ws.length = .ok (ws.map V.u32) := by
+  induction ws with
+  | nil => intro pre tail len _ _; rfl
+  | cons w ws ih =>
+    intro pre tail len h1 h2
+    simp only [List.length_cons] at h1
+    have := ih (pre ++ be32 w) tail len (by simp; omega) (by simpa using h2)
+    simp only [List.length_cons, pReadU32s, List.map_cons, List.flatten_cons]
+    unfold Slice.u32From
+    rw [Slice.fromR_ok _ _ (by simp; omega)]
+    simp only [Res.bind_ok, List.length_append, be32_length, List.append_assoc] at this ⊢
+    rw [this]
+    have : (⟨List.drop pre.length (pre ++ (be32 w ++ ((ws.map be32).flatten ++ tail))), len - pre.length⟩ : Slice).u32Here = .ok w := by
+      simp only [List.drop_left, Slice.u32Here, Slice.bytes, be32_cells, List.cons_append, List.nil_append]
+      rw [rd32_take _ _ _ _ _ _ (by omega)]
+      simp [Res.ofOption]
+    rw [this]
+    rfl
+
+def kIGMPv3GroupRecord : KindOps :=
+  ⟨PIGMPv3GroupRecord.lenM, PIGMPv3GroupRecord.marshalM, PIGMPv3GroupRecord.unmarshal, PIGMPv3GroupRecord.zero⟩
+
+/-- well-formed IGMPv3 group record: 8-bit type, `AuxDataLen` = number of 32-bit auxiliary words present,
+    `NumberOfSources` = number of 4-byte source addresses present, 4-byte multicast address, size fits 16 bits -/
+def IGMPv3GroupRecord.WFv : V → Prop
+  | .obj "p.IGMPv3GroupRecord" [.num ty, .num aux, .num ns, .bytes mc, .list srcs, .list auxd] =>
+    ty < 256 ∧ aux < 256 ∧ aux = auxd.length ∧ ns = srcs.length ∧ mc.length = 4 ∧ 8 + 4 * aux + 4 * ns < 65536 ∧
+      (∀ x ∈ srcs, isIP4 x) ∧ (∀ x ∈ auxd, isU32 x)
+  | _ => False
+instance : DecidablePred IGMPv3GroupRecord.WFv := fun v => by unfold IGMPv3GroupRecord.WFv; split <;> infer_instance
+
+/-- encoded size of a group record -/
+def recSize : V → Nat
+  | .obj "p.IGMPv3GroupRecord" [_, .num aux, .num ns, _, _, _] => 8 + 4 * aux + 4 * ns
+  | _ => 0
+
+theorem grouprec_len (aux ns : Nat) (ha : aux < 256) (h : 8 + 4 * aux + 4 * ns < 65536) :
+    (((8 : UInt16) + ((n8 aux).toUInt64).toUInt16 * (4 : UInt16)) + n16 ns * (4 : UInt16)).toNat = 8 + 4 * aux + 4 * ns := by
+  simp only [UInt16.toNat_add, UInt16.toNat_mul, UInt64.toNat_toUInt16, UInt8.toNat_toUInt64, n8_toNat _ ha,
+    n16_toNat ns (by omega)]
+  have h1 : (8 : UInt16).toNat = 8 := rfl
+  have h4 : (4 : UInt16).toNat = 4 := rfl
+  rw [h1, h4]; omega
+
+theorem igmpv3grouprecord_roundtrip (v : V) (h : IGMPv3GroupRecord.WFv v) : RoundTripPrefix kIGMPv3GroupRecord v := by
+  unfold IGMPv3GroupRecord.WFv at h
+  split at h
+  · rename_i ty aux ns mc srcs auxd
+    obtain ⟨h1, h2, rfl, rfl, h5, h6, h7, h8⟩ := h
+    obtain ⟨ips, rfl, hips, hpl⟩ := ip4_list srcs h7
+    obtain ⟨ws, rfl, hwp⟩ := u32_list auxd h8
+    simp only [List.length_map] at h2 h6 ⊢
+    obtain ⟨m0, m1, m2, m3, rfl⟩ := bytes_len4 mc h5
+    obtain ⟨p1, p2, p3⟩ := ip4_pieces ips hips
+    obtain ⟨q1, q2, q3, q4⟩ := u32_pieces ws
+    have hfl := ip4_flatten_length ips hips
+    have hlen := grouprec_len ws.length ips.length h2 h6
+    have hns : ips.length < 65536 := by omega
+    refine ⟨[n8 ty, n8 ws.length] ++ be16 (n16 ips.length) ++ [m0, m1, m2, m3] ++ ips.flatten ++ (ws.map be32).flatten,
+      ((8 : UInt16) + ((n8 ws.length).toUInt64).toUInt16 * (4 : UInt16)) + n16 ips.length * (4 : UInt16), ?_⟩
+    refine ⟨?_, ?_, ?_, ?_⟩
+    · simp only [kIGMPv3GroupRecord, PIGMPv3GroupRecord.marshalM, PIGMPv3GroupRecord.bytes, PIGMPv3GroupRecord.len, Res.bind_ok,
+        Gen.protocol.IGMPv3GroupRecord.Len, hlen, hpl, hwp]
+      rw [pIpTo4_four _ h5, pCopyIn, pFitTo_self _ _ h5]
+      rw [fill_ok _ _ (by
+          intro p hp
+          simp only [List.cons_append, List.nil_append, List.mem_cons, List.mem_append] at hp
+          rcases hp with rfl | rfl | rfl | rfl | hp | hp
+          all_goals first | (simp [Piece.Tight, pU8, pU16]; done) | exact p3 p hp | exact q3 p hp)
+        (by simp [piecesLen, Piece.adv, pU8, pU16] at p2 q2 ⊢; omega)]
+      simp [piecesBytes, Piece.bytes, pU8, pU16, same] at p1 q1 ⊢
+      rw [p1, q1]
+    · simp [kIGMPv3GroupRecord, PIGMPv3GroupRecord.lenM, PIGMPv3GroupRecord.len, same, Gen.protocol.IGMPv3GroupRecord.Len]
+    · rw [hlen]; simp only [List.length_append, List.length_cons, List.length_nil, be16_length, hfl, q4]; omega
+    · intro tail n hn1 hn2
+      have hbl : ([n8 ty, n8 ws.length] ++ be16 (n16 ips.length) ++ [m0, m1, m2, m3] ++ ips.flatten ++
+          (ws.map be32).flatten).length = 8 + 4 * ips.length + 4 * ws.length := by
+        simp only [List.length_append, List.length_cons, List.length_nil, be16_length, hfl, q4]
+      rw [hbl] at hn1
+      rw [List.length_append, hbl] at hn2
+      simp only [kIGMPv3GroupRecord]
+      unfold PIGMPv3GroupRecord.unmarshal
+      have hrd := readIPs_flatten ips hips ([n8 ty, n8 ws.length] ++ be16 (n16 ips.length) ++ [m0, m1, m2, m3])
+        ((ws.map be32).flatten ++ tail) n
+      rw [show ([n8 ty, n8 ws.length] ++ be16 (n16 ips.length) ++ [m0, m1, m2, m3]).length = 8 from rfl] at hrd
+      have hrw := readU32s_flatten ws ([n8 ty, n8 ws.length] ++ be16 (n16 ips.length) ++ [m0, m1, m2, m3] ++ ips.flatten)
+        tail n (by simp only [List.length_append, List.length_cons, List.length_nil, be16_length, hfl]; omega)
+        (by simp only [List.length_append, List.length_cons, List.length_nil, be16_length, hfl, q4]; omega)
+      rw [show ([n8 ty, n8 ws.length] ++ be16 (n16 ips.length) ++ [m0, m1, m2, m3] ++ ips.flatten).length
+        = 8 + 4 * ips.length from by
+          simp only [List.length_append, List.length_cons, List.length_nil, be16_length, hfl]] at hrw
+      have hassoc : [n8 ty, n8 ws.length] ++ be16 (n16 ips.length) ++ [m0, m1, m2, m3] ++ ips.flatten ++
+          ((ws.map be32).flatten ++ tail) = [n8 ty, n8 ws.length] ++ be16 (n16 ips.length) ++ [m0, m1, m2, m3] ++
+          ips.flatten ++ (ws.map be32).flatten ++ tail := by simp only [List.append_assoc]
+      rw [hassoc] at hrd
+      generalize hdata : (⟨[n8 ty, n8 ws.length] ++ be16 (n16 ips.length) ++ [m0, m1, m2, m3] ++ ips.flatten ++
+          (ws.map be32).flatten ++ tail, n⟩ : Slice) = data at hrd hrw ⊢
+      have a0 : 0 < n := by omega
+      have a1 : 1 < n := by omega
+      have a2 : 2 ≤ n := by omega
+      have b2 : 2 ≤ n - 2 := by omega
+      have r0 : data.byteAt 0 = .ok (n8 ty) := by rw [← hdata]; rt_reads [a0]
+      have r1 : data.byteAt 1 = .ok (n8 ws.length) := by rw [← hdata]; rt_reads [a1]
+      have r2 : data.u16From 2 = .ok (n16 ips.length) := by rw [← hdata]; rt_reads [a2, b2]
+      have r4 : data.sliceR 4 8 = .ok ⟨[m0, m1, m2, m3] ++ (ips.flatten ++ (ws.map be32).flatten ++ tail), 4⟩ := by
+        rw [← hdata]; rt_reads []
+      have rl : data.len = n := by rw [← hdata]
+      simp only [r0, r1, r2, r4, rl, Res.bind_ok, n16_toNat _ hns, n8_toNat _ h2, hrd, hrw]
+      have c1 : ¬ (n < 8) := by omega
+      have c2 : ¬ (n < 8 + ws.length * 4 + ips.length * 4) := by omega
+      simp [c1, c2, PIGMPv3GroupRecord.zero, u8_n8, u16_n16, h1, h2, hns, Slice.bytes, makeCopy_self]
+  · exact h.elim
+
+theorem grouprec_sizes (r : V) (h : IGMPv3GroupRecord.WFv r) :
+    PIGMPv3GroupRecord.trueSize r = .ok (recSize r) ∧ 8 ≤ recSize r ∧
+      ∀ l, PIGMPv3GroupRecord.len r = .ok l → l.toNat = recSize r := by
+  unfold IGMPv3GroupRecord.WFv at h
+  split at h
+  · rename_i ty aux ns mc srcs auxd
+    obtain ⟨h1, h2, h3, h4, h5, h6, h7, h8⟩ := h
+    refine ⟨?_, ?_, ?_⟩
+    · simp only [PIGMPv3GroupRecord.trueSize, recSize, n8_toNat _ h2, n16_toNat ns (by omega)]
+      congr 1; omega
+    · simp only [recSize]; omega
+    · intro l hl
+      simp only [PIGMPv3GroupRecord.len, Gen.protocol.IGMPv3GroupRecord.Len] at hl
+      cases hl
+      rw [grouprec_len aux ns h2 h6]; rfl
+  · exact h.elim
+
+/-- what the round trip of one well-formed group record provides, in the terms the membership report uses -/
+theorem grouprec_facts (r : V) (h : IGMPv3GroupRecord.WFv r) :
+    ∃ bs l, PIGMPv3GroupRecord.bytes r = .ok bs ∧ PIGMPv3GroupRecord.len r = .ok l ∧ bs.length = l.toNat ∧
+      l.toNat = recSize r ∧ PIGMPv3GroupRecord.trueSize r = .ok (recSize r) ∧ 8 ≤ recSize r ∧
+      ∀ tail n, bs.length ≤ n → n ≤ (bs ++ tail).length →
+        PIGMPv3GroupRecord.unmarshal PIGMPv3GroupRecord.zero ⟨bs ++ tail, n⟩ = .ok r := by
+  obtain ⟨bs, l, h1, h2, h3, h4⟩ := igmpv3grouprecord_roundtrip r h
+  simp only [kIGMPv3GroupRecord, PIGMPv3GroupRecord.marshalM, PIGMPv3GroupRecord.lenM] at h1 h2
+  obtain ⟨b, hb, h1⟩ := bind_ok_inv _ _ _ h1
+  obtain ⟨rfl, _⟩ := same_ok _ _ _ _ h1
+  obtain ⟨l', hl', h2⟩ := bind_ok_inv _ _ _ h2
+  obtain ⟨rfl, _⟩ := same_ok _ _ _ _ h2
+  obtain ⟨q1, q3, q2⟩ := grouprec_sizes r h
+  exact ⟨bs, l, hb, hl', h3, q2 l hl', q1, q3, h4⟩
+
+theorem report_recs (rs : List V) (hwf : ∀ r ∈ rs, IGMPv3GroupRecord.WFv r) :
+    ∃ W : Bytes, W.length = (rs.map recSize).sum ∧ 8 * rs.length ≤ W.length ∧
+      (∃ ps ls, PIGMPv3MembershipReport.recPieces rs = .ok ps ∧ PIGMPv3MembershipReport.recLens rs = .ok ls ∧
+        (ls.map UInt16.toNat).sum = W.length ∧ piecesBytes ps = W ∧ piecesLen ps = W.length ∧ ∀ p ∈ ps, p.Tight) ∧
+      ∀ (pre tail : Bytes) (len : Nat), pre.length + W.length ≤ len → len ≤ (pre ++ W ++ tail).length →
+        PIGMPv3MembershipReport.readRecs ⟨pre ++ W ++ tail, len⟩ pre.length rs.length = .ok rs := by
+  induction rs with
+  | nil =>
+    exact ⟨[], rfl, Nat.le_refl _, ⟨[], [], rfl, rfl, rfl, rfl, rfl, by simp⟩, fun _ _ _ _ _ => rfl⟩
+  | cons r rs ih =>
+    obtain ⟨W', hW', hW8, ⟨ps', ls', hps0, hls0, hls1, hps2, hps3, hps4⟩, hrd⟩ := ih (fun x hx => hwf x (by simp [hx]))
+    obtain ⟨bs, l, hb, hl, hbl, hsz, hts, hge, hdec⟩ := grouprec_facts r (hwf r (by simp))
+    refine ⟨bs ++ W', ?_, ?_, ⟨pCopyAdv bs l.toNat :: ps', l :: ls', ?_, ?_, ?_, ?_, ?_, ?_⟩, ?_⟩
+    · simp [hW', hbl, hsz]
+    · simp; omega
+    · simp [PIGMPv3MembershipReport.recPieces, hb, hl, hps0]
+    · simp [PIGMPv3MembershipReport.recLens, hl, hls0]
+    · simp [hls1, hbl]
+    · simp [piecesBytes, Piece.bytes, pCopyAdv, ← hbl, zeros] at hps2 ⊢
+      exact hps2
+    · simp [piecesLen, Piece.adv, pCopyAdv, ← hbl] at hps3 ⊢
+      exact hps3
+    · intro p hp
+      simp at hp
+      rcases hp with rfl | hp
+      · simp [Piece.Tight, pCopyAdv, hbl]
+      · exact hps4 p hp
+    · intro pre tail len h1 h2
+      simp at h1 h2
+      simp only [List.length_cons, PIGMPv3MembershipReport.readRecs]
+      rw [Slice.fromR_ok _ _ (by show pre.length ≤ len; omega)]
+      simp only [Res.bind_ok]
+      have hd : List.drop pre.length (pre ++ (bs ++ W') ++ tail) = bs ++ (W' ++ tail) := by simp
+      rw [hd, hdec (W' ++ tail) (len - pre.length) (by omega) (by simp; omega)]
+      simp only [Res.bind_ok, hts]
+      have := hrd (pre ++ bs) tail len (by simp; omega) (by simp; omega)
+      simp only [List.length_append, List.append_assoc] at this
+      rw [hbl, hsz] at this
+      simp only [List.append_assoc]
+      rw [this]
+      rfl
+
+def kIGMPv3MembershipReport : KindOps := ⟨PIGMPv3MembershipReport.lenM, PIGMPv3MembershipReport.marshalM,
+  PIGMPv3MembershipReport.unmarshal, PIGMPv3MembershipReport.zero⟩
+
+/-- well-formed IGMPv3 membership report: 8-bit type, 16-bit checksum, the two reserved fields 0 (they are not written to
+    the wire), `NumberOfGroups` = number of (well-formed) group records present, size fits 16 bits -/
+def IGMPv3MembershipReport.WFv : V → Prop
+  | .obj "p.IGMPv3MembershipReport" [.num ty, .num r1, .num cs, .num r2, .num ng, .list rs] =>
+    ty < 256 ∧ r1 = 0 ∧ cs < 65536 ∧ r2 = 0 ∧ ng = rs.length ∧ (∀ r ∈ rs, IGMPv3GroupRecord.WFv r) ∧
+      8 + (rs.map recSize).sum < 65536
+  | _ => False
+instance : DecidablePred IGMPv3MembershipReport.WFv := fun v => by
+  unfold IGMPv3MembershipReport.WFv; split <;> infer_instance
+
+theorem igmpv3membershipreport_roundtrip (v : V) (h : IGMPv3MembershipReport.WFv v) :
+    RoundTrip kIGMPv3MembershipReport v := by
+  unfold IGMPv3MembershipReport.WFv at h
+  split at h
+  · rename_i ty r1 cs r2 ng rs
+    obtain ⟨h1, rfl, h3, rfl, rfl, h6, h7⟩ := h
+    obtain ⟨W, hW, hW8, ⟨ps, ls, hps0, hls0, hls1, hps2, hps3, hps4⟩, hrd⟩ := report_recs rs h6
+    have hsum : (sum16 ls).toNat = W.length := by rw [sum16_toNat ls (by omega), hls1]
+    have hlen : ((8 : UInt16) + sum16 ls).toNat = 8 + W.length := by
+      rw [UInt16.toNat_add, hsum]
+      have : (8 : UInt16).toNat = 8 := rfl
+      rw [this]; omega
+    have hrs : rs.length < 65536 := by omega
+    refine ⟨[n8 ty, 0] ++ be16 (n16 cs) ++ [0, 0] ++ be16 (n16 rs.length) ++ W, (8 : UInt16) + sum16 ls, ?_⟩
+    refine ⟨?_, ?_, ?_, ?_⟩
+    · simp only [kIGMPv3MembershipReport, PIGMPv3MembershipReport.marshalM, PIGMPv3MembershipReport.len, Res.bind_ok, hls0, hlen,
+        hps0]
+      obtain ⟨o, ho⟩ := fill_ok_le (8 + W.length) [pU8 ty, pSkip 1, pU16 cs, pSkip 2, pU16 rs.length]
+        (by simp [Piece.Tight, pU8, pU16, pSkip]) (by simp [piecesLen, Piece.adv, pU8, pU16, pSkip])
+      rw [ho]
+      simp only [Res.bind_ok]
+      rw [fill_ok _ _ (by
+          intro p hp
+          simp only [List.cons_append, List.nil_append, List.mem_cons] at hp
+          rcases hp with rfl | rfl | rfl | rfl | rfl | hp
+          all_goals first | (simp [Piece.Tight, pU8, pU16, pSkip]; done) | exact hps4 p hp)
+        (by simp [piecesLen, Piece.adv, pU8, pU16, pSkip] at hps3 ⊢; omega)]
+      simp [piecesBytes, Piece.bytes, pU8, pU16, pSkip, same, zeros] at hps2 ⊢
+      exact hps2
+    · simp [kIGMPv3MembershipReport, PIGMPv3MembershipReport.lenM, PIGMPv3MembershipReport.len, same, hls0]
+    · rw [hlen]; simp only [List.length_append, List.length_cons, List.length_nil, be16_length]
+    · intro spare
+      have hbl : ([n8 ty, 0] ++ be16 (n16 cs) ++ [0, 0] ++ be16 (n16 rs.length) ++ W).length = 8 + W.length := by
+        simp only [List.length_append, List.length_cons, List.length_nil, be16_length]
+      rw [hbl]
+      simp only [kIGMPv3MembershipReport]
+      unfold PIGMPv3MembershipReport.unmarshal
+      have hrd' := hrd ([n8 ty, 0] ++ be16 (n16 cs) ++ [0, 0] ++ be16 (n16 rs.length)) spare (8 + W.length)
+        (by simp) (by simp only [List.length_append, List.length_cons, List.length_nil, be16_length]; omega)
+      rw [show ([n8 ty, 0] ++ be16 (n16 cs) ++ [0, 0] ++ be16 (n16 rs.length) : Bytes).length = 8 from rfl] at hrd'
+      generalize hdata : (⟨[n8 ty, 0] ++ be16 (n16 cs) ++ [0, 0] ++ be16 (n16 rs.length) ++ W ++ spare, 8 + W.length⟩ : Slice)
+        = data at hrd' ⊢
+      have a0 : 0 < 8 + W.length := by omega
+      have a2 : 2 ≤ 8 + W.length := by omega
+      have a6 : 6 ≤ 8 + W.length := by omega
+      have b2 : 2 ≤ 8 + W.length - 2 := by omega
+      have b6 : 2 ≤ 8 + W.length - 6 := by omega
+      have r0 : data.byteAt 0 = .ok (n8 ty) := by rw [← hdata]; rt_reads [a0]
+      have r2 : data.u16From 2 = .ok (n16 cs) := by rw [← hdata]; rt_reads [a2, b2]
+      have r6 : data.u16From 6 = .ok (n16 rs.length) := by rw [← hdata]; rt_reads [a6, b6]
+      have rl : data.len = 8 + W.length := by rw [← hdata]
+      simp only [r0, r2, r6, rl, Res.bind_ok, n16_toNat _ hrs, hrd']
+      have c1 : ¬ (8 + W.length < 8) := by omega
+      simp [c1, PIGMPv3MembershipReport.zero, u8_n8, u16_n16, h1, h3, hrs]
+  · exact h.elim
+
+example : IGMPv3GroupRecord.WFv (.obj "p.IGMPv3GroupRecord" [.num 1, .num 1, .num 2, .bytes [224, 0, 0, 9],
+    .list [.bytes [10, 0, 0, 1], .bytes [10, 0, 0, 2]], .list [.num 0xdeadbeef]]) := by decide
+
+example : IGMPv3MembershipReport.WFv (.obj "p.IGMPv3MembershipReport" [.num 0x22, .num 0, .num 0xabcd, .num 0, .num 2,
+    .list [.obj "p.IGMPv3GroupRecord" [.num 1, .num 1, .num 2, .bytes [224, 0, 0, 9],
+             .list [.bytes [10, 0, 0, 1], .bytes [10, 0, 0, 2]], .list [.num 0xdeadbeef]],
+           .obj "p.IGMPv3GroupRecord" [.num 4, .num 0, .num 0, .bytes [224, 0, 0, 10], .list [], .list []]]]) := by decide
+
 /-! ## 3. Demux theorems -/
 
 theorem ubuffer_kind (r : V) (d : Slice) (v : V) (h : UBuffer.unmarshal r d = .ok v) : v.kind = "u.Buffer" := by
